@@ -24,11 +24,13 @@ CHECKS = {
         design="5/C03"),
     "C09": dict(
         text=("The model is REGENERATED from typhon/physics/atmosphere.py on every run by a fail-closed Python-ast -> Coq translator "
-              "(coq/gen/atmosphere.v); 12 theorems over the reals are re-checked against it: the six converters are mutual "
+              "(coq/gen/atmosphere.v); 14 theorems over the reals are re-checked against it: the six converters are mutual "
               "inverses, all two-step routes equal the direct one, 0 -> 0, strictly increasing; Murphy-Koop saturation pressures "
               "positive and strictly increasing on [100,400] K (derivative sign by interval arithmetic), ice <= liquid(1+1e-6) "
-              "below T_t and equal to 1e-6 at T_t; mixed phase = ice below T_t-23, liquid above T_t, between them everywhere and "
-              "equal to the pure phases at the joints (epsilon-delta continuity is a named gap, hence _partial); guards reject "
+              "below T_t and equal to 1e-6 at T_t; mixed phase = ice below T_t-23, liquid above T_t, between them everywhere, positive, "
+              "CONTINUOUS at every T > 0 in the epsilon-delta sense (also as Coquelicot continuous / stdlib continuity_pt, by gluing the "
+              "three branch formulas at both switching temperatures) and strictly increasing on all of [100,400] K across both joints "
+              "(derivative of the blend by auto_derive, its sign by interval bisection); no theorem of C09 is partial; guards reject "
               "T <= 0; RH<->VMR inverse for any saturation function; lapse rate in (0, g/cp] with an explicit bound on its distance "
               "to g/cp proportional to the saturation mixing ratio. Float behaviour is tied pointwise by interval enclosures proved "
               "in Coq around the values the implementation returns; a numeric sweep of the stated laws on the implementation "
